@@ -1,6 +1,7 @@
 package main
 
 import (
+	"encoding/hex"
 	"encoding/json"
 	"fmt"
 	"math/rand"
@@ -218,18 +219,21 @@ func checkC07(c *Ctx) (int, error) {
 		if err != nil {
 			return 0, err
 		}
-		members := len(ct.s.Enc)
+		// every worker must see the same bytes whatever its acceleration level (fastgo's encoders
+		// choose matches differently per level): the container is materialised once
+		firstEnd := -1
+		if len(ct.s.Enc) == 2 {
+			if o := refContainer(ct.kind, b, nil, true); len(o.MemberEnds) == 2 {
+				firstEnd = o.MemberEnds[0]
+			}
+		}
+		ct.s = RStream{Hex: hex.EncodeToString(b)}
 		for bit := 0; bit < len(b)*8; bit++ {
 			add(ct, []Mutation{{Op: "flip", Pos: bit}}, false, fmt.Sprintf("flip%d", bit))
 		}
 		for p := 0; p < len(b); p++ {
 			// cutting exactly between two members (or to nothing) leaves a shorter valid file
-			cut := p > 0
-			if members == 2 {
-				if first, err := (RStream{Enc: ct.s.Enc[:1]}).Build(); err == nil && p == len(first) {
-					cut = false
-				}
-			}
+			cut := p > 0 && p != firstEnd
 			add(ct, []Mutation{{Op: "trunc", Pos: p}}, cut, fmt.Sprintf("cut%d", p))
 		}
 		for k := 0; k < nExtra/len(conts)+1; k++ {
